@@ -2,7 +2,7 @@
 (* Validates event logs recorded from the real perform_cached_doit (vf/cachefs_exec.py)
    against CacheFS.  One TLC run consumes a batch of traces recorded under one hash-seed
    environment; record 1 is a header {"ev":"Header","keyof":{e |-> key}}; every trace
-   begins with {"ev":"Start","tid":n}.  Each logged operation must be the CacheFS action
+   begins with {"ev":"Start","tid":n,"dir":0|1} (whether the cache directory exists).  Each logged operation must be the CacheFS action
    the model's program counter allows, with the logged observation (exists / result /
    directory snapshot) equal to the model's; the C16 laws are evaluated on the logged
    results.  A trace that leaves the model is reported (DRIFT) and skipped to its end:
@@ -53,6 +53,7 @@ TStart ==
   /\ res' = [p \in Procs |-> None] /\ rfd' = [p \in Procs |-> 0]
   /\ wfd' = [p \in Procs |-> 0] /\ woff' = [p \in Procs |-> 0]
   /\ calls' = 0 /\ crashes' = 0
+  /\ dir' = (Rec.dir = 1) /\ dseen' = [p \in Procs |-> FALSE]
   /\ bad' = FALSE /\ targ' = [p \in Procs |-> None]
   /\ Consume
 
@@ -68,6 +69,11 @@ TSkip ==
 Act(r) ==
   LET p == r.p IN
   CASE r.ev = "Call"    -> Call(p, r.e)
+    \* os.mkdir on the cache directory: it creates the directory exactly when it was not there; that an existing one is
+    \* tolerated shows in the call going on (a raise reaches the caller as Return RAISED, which the model never allows)
+    [] r.ev = "Mkdir"   -> EnsureDir(p) /\ (r.created = 1) = (~dir)
+    \* looking at the directory (exists(), is_dir()) has no counterpart in the model: stuttering
+    [] r.ev = "DirStat" -> pc[p] \in {"mkdir", "stat"} /\ (r.exists = 1) = dir /\ UNCHANGED vars
     [] r.ev = "Stat"    -> Stat(p) /\ r.name = Key(p) /\ (r.exists = 1) = (link[Key(p)] # 0)
     [] r.ev = "OpenR"   -> OpenR(p) /\ r.name = Key(p)
     [] r.ev = "Load"    -> Load(p)
@@ -87,7 +93,7 @@ Act(r) ==
          /\ rfd' = [rfd EXCEPT ![p] = 0] /\ wfd' = [wfd EXCEPT ![p] = 0]
          /\ crashes' = crashes + 1
          /\ link' = [link EXCEPT ![Tmp(p)] = 0]
-         /\ UNCHANGED <<nino, arg, woff, calls>>
+         /\ UNCHANGED <<nino, arg, woff, calls, dir, dseen>>
     [] OTHER -> FALSE
 
 TEvent ==
